@@ -1,6 +1,7 @@
 package main
 
 import (
+	"crypto/sha256"
 	"fmt"
 	"math/big"
 	"sort"
@@ -589,6 +590,7 @@ func Forall(bound []*Term, body *Term, pats ...*Term) *Term {
 	if body.IsTrue() {
 		return tTrue
 	}
+	bound, body, pats = canonBound(bound, body, pats)
 	return &Term{Op: "forall", Sort: SBool, Bound: bound, Args: []*Term{body}, Pats: pats}
 }
 
@@ -596,7 +598,47 @@ func Exists(bound []*Term, body *Term) *Term {
 	if body.IsFalse() {
 		return tFalse
 	}
+	bound, body, _ = canonBound(bound, body, nil)
 	return &Term{Op: "exists", Sort: SBool, Bound: bound, Args: []*Term{body}}
+}
+
+// canonBound gives the bound variables names that depend only on the quantified formula itself, so that two
+// evaluations of the same contract clause in the same state are the same term (and "P ==> Q" with P already
+// assumed reduces to Q without asking a solver to re-prove a quantified P).
+func canonBound(bound []*Term, body *Term, pats []*Term) ([]*Term, *Term, []*Term) {
+	canon := true
+	for _, b := range bound {
+		if !strings.Contains(b.Name, "!q") {
+			canon = false
+		}
+	}
+	if canon {
+		return bound, body, pats
+	}
+	s := body.String()
+	for _, p := range pats {
+		s += " " + p.String()
+	}
+	for i, b := range bound {
+		s = strings.ReplaceAll(s, "|"+b.Name+"|", fmt.Sprintf("|#%d|", i))
+	}
+	h := sha256.Sum256([]byte(s))
+	m := map[string]*Term{}
+	nb := make([]*Term, len(bound))
+	for i, b := range bound {
+		base := b.Name
+		if j := strings.Index(base, "!"); j >= 0 {
+			base = base[:j]
+		}
+		nb[i] = Sym(fmt.Sprintf("%s!q%x_%d", base, h[:5], i), b.Sort)
+		m[b.Name] = nb[i]
+	}
+	body = subst(body, m)
+	np := make([]*Term, len(pats))
+	for i, p := range pats {
+		np[i] = subst(p, m)
+	}
+	return nb, body, np
 }
 
 // ---- traversal ----
